@@ -285,6 +285,14 @@ def r6_fragments(ctx):
     ctx.assume("ColumnIterMut hands out non-overlapping column slices (cursor strictly increases)")
 
 
+REVIEWED_BATCH_LOCAL_INDEX = {
+    "winter_prover::constraints::evaluation_table::acc_column::{closure~6f3263}":
+        "transition branch of acc_column: z = get_inv_evaluation(divisor, domain) has ce_blowup entries for the transition divisor "
+        "(numerator x^trace_len - 1 over the constraint-evaluation domain), a power of two <= 128 = the minimum batch size, so it divides every "
+        "power-of-two batch start (needs the aligned batch size checked below)",
+}
+
+
 def r7_batch_alignment(ctx):
     """a batch closure that indexes shared (captured) data with its batch-local loop index, without
     the batch offset, is position-independent only if every batch starts at a multiple of that
@@ -320,6 +328,15 @@ def r7_batch_alignment(ctx):
             n_local += 1
             ok = True
             why = ""
+            from .. import panics as _panics
+            skey = _panics.stable_key(p, cf.key)
+            skey = skey.split("::{closure")[0] + "::" + skey.split("::")[-1]
+            if skey not in REVIEWED_BATCH_LOCAL_INDEX:
+                ctx.ob("R7", "batch-local-index-reviewed", False,
+                       "captured data is indexed with the batch-local index (no batch offset) in a batch closure that is not on the reviewed list: "
+                       "this is position-independent only if the data's period divides every batch start (%s)" % skey, cf, t["sp"]["at"], cfg=CFG)
+                continue
+            ctx.ob("R7", "batch-local-index-reviewed", True, "reviewed: " + REVIEWED_BATCH_LOCAL_INDEX[skey], cf, t["sp"]["at"], cfg=CFG)
             for bi, st, sl, names in sized:
                 divs = [s for l in sl["locals"] for d in f.defs(l) if d["kind"] == "assign" for s in [d] if d["rv"][0] == "bin" and d["rv"][1].startswith("Div")]
                 aligned = False
